@@ -990,6 +990,15 @@ class OdeSystem(object):
         steps = 0
 
         events, is_terminal, direction, last_occurrence, requires_dstate = prepare_events(events, self.__y[0])
+        if events is not None and self.__events:
+            # a crossing that sits on the hand-over time of two calls is located by both of them (at the end of the last
+            # step of the first, at the start of the first step of the second): the duplicate suppression has to know
+            # the last event each of these functions has already recorded
+            for ev_idx, event in enumerate(events):
+                for rec_idx in range(len(self.__events) - 1, -1, -1):
+                    if self.__events[rec_idx].event is event:
+                        last_occurrence[ev_idx] = rec_idx
+                        break
 
         implicit_integration = False
         if np.isinf(D.ar_numpy.to_numpy(tf)):
